@@ -60,6 +60,8 @@ import (
 	"unsafe"
 )
 
+var _ = sort.Strings
+
 // (contract.go is not part of this build; the one variable of it that statesql.go reads)
 var maxSQLDBSize uint64 = stateSQLMinDBSize
 
@@ -93,19 +95,29 @@ func VerifSeed(name string, stmts []string) error {
 	return nil
 }
 
-// VerifWritableExec: the statements on the raw handle of the writable connection (non-vacuity of the scenario).
-func VerifWritableExec(name string, stmts []string) []int {
+// VerifWritableTrial: each statement on its own on the raw handle of the writable connection, inside a savepoint that
+// is rolled back: return code, and whether the statement changed the content (which statements of the scenario are
+// effective writes; non-vacuity of the scenario).
+func VerifWritableTrial(name string, stmts []string) (rcs []int, changed []bool) {
 	db, err := conn(name)
 	if err != nil {
-		return nil
+		return nil, nil
 	}
 	defer CloseDatabase()
-	var out []int
-	for _, s := range stmts {
-		rc, _ := verifExecRaw(db.conn.db, s)
-		out = append(out, rc)
+	base, err := verifDumpOn(db)
+	if err != nil {
+		return nil, nil
 	}
-	return out
+	for _, s := range stmts {
+		verifExecRaw(db.conn.db, "SAVEPOINT veriftrial")
+		rc, _ := verifExecRaw(db.conn.db, s)
+		after, err := verifDumpOn(db)
+		verifExecRaw(db.conn.db, "ROLLBACK TO veriftrial")
+		verifExecRaw(db.conn.db, "RELEASE veriftrial")
+		rcs = append(rcs, rc)
+		changed = append(changed, err == nil && after != base)
+	}
+	return
 }
 
 // VerifDump: logical content (schema + all rows of all tables), through a fresh writable connection.
@@ -115,6 +127,10 @@ func VerifDump(name string) (string, error) {
 		return "", err
 	}
 	defer CloseDatabase()
+	return verifDumpOn(db)
+}
+
+func verifDumpOn(db *litetree) (string, error) {
 	ctx := context.Background()
 	rows, err := db.QueryContext(ctx, "select type, name, coalesce(sql,'') from sqlite_master order by type, name")
 	if err != nil {
@@ -224,7 +240,7 @@ type result struct {
 	Reads    []attempt         ` + "`json:\"reads\"`" + `
 	Control  map[string]string ` + "`json:\"control\"`" + `
 	RwRc     []int             ` + "`json:\"rw_rc\"`" + `
-	RwAfter  string            ` + "`json:\"rw_after\"`" + `
+	RwChanged []bool           ` + "`json:\"rw_changed\"`" + `
 }
 
 func main() {
@@ -280,9 +296,8 @@ func main() {
 				r.Err = "dump after: " + err.Error()
 				return
 			}
-			// non-vacuity: the same statements through the writable handle
-			r.RwRc = c.VerifWritableExec(s.Name, s.Writes)
-			r.RwAfter, _ = c.VerifDump(s.Name)
+			// which of the statements are effective writes: each one alone through the writable handle
+			r.RwRc, r.RwChanged = c.VerifWritableTrial(s.Name, s.Writes)
 		}()
 		out = append(out, r)
 	}
@@ -306,15 +321,15 @@ type sqlAttempt struct {
 }
 
 type sqlResult struct {
-	Name    string            `json:"name"`
-	Err     string            `json:"err"`
-	Before  string            `json:"before"`
-	After   string            `json:"after"`
-	Writes  []sqlAttempt      `json:"writes"`
-	Reads   []sqlAttempt      `json:"reads"`
-	Control map[string]string `json:"control"`
-	RwRc    []int             `json:"rw_rc"`
-	RwAfter string            `json:"rw_after"`
+	Name      string            `json:"name"`
+	Err       string            `json:"err"`
+	Before    string            `json:"before"`
+	After     string            `json:"after"`
+	Writes    []sqlAttempt      `json:"writes"`
+	Reads     []sqlAttempt      `json:"reads"`
+	Control   map[string]string `json:"control"`
+	RwRc      []int             `json:"rw_rc"`
+	RwChanged []bool            `json:"rw_changed"`
 }
 
 var sqlKeep = map[string]bool{"statesql.go": true, "statesql_params.go": true, "sqlite3_other.go": true, "callback.go": true, "error.go": true}
@@ -601,13 +616,23 @@ func sqlDrive(run *vh.Run, b *sqlBuild, scs []sqlScenario) {
 			continue
 		}
 		run.Count("sqldrive-scenario")
+		// a statement is an effective write if, on its own through the writable handle, it changes the content
+		effective := map[string]bool{}
+		for i, q := range sc.Writes {
+			if i < len(r.RwChanged) && r.RwChanged[i] {
+				effective[q] = true
+			}
+		}
 		accepted := []string{}
 		for _, a := range r.Writes {
 			run.Eval("sqlwrite "+a.SQL, true)
-			if a.Rc == 0 {
-				accepted = append(accepted, a.SQL)
-			} else {
+			switch {
+			case a.Rc != 0:
 				run.Count("sqldrive-write-refused")
+			case effective[a.SQL]:
+				accepted = append(accepted, a.SQL)
+			default:
+				run.Count("sqldrive-accepted-but-changes-nothing") // e.g. REINDEX without an index, DELETE matching no row
 			}
 		}
 		if len(accepted) > 0 {
@@ -636,14 +661,11 @@ func sqlDrive(run *vh.Run, b *sqlBuild, scs []sqlScenario) {
 				run.Count("sqldrive-read-failed")
 			}
 		}
-		okRw := 0
-		for _, rc := range r.RwRc {
-			if rc == 0 {
-				okRw++
-			}
-		}
-		if okRw > 0 && r.RwAfter != r.After {
+		if len(effective) > 0 {
 			run.Count("sqldrive-nonvacuous(writable-handle-changes-data)")
+			for range effective {
+				run.Count("sqldrive-effective-write-statement")
+			}
 		} else {
 			run.Count("sqldrive-vacuous-scenario")
 		}
